@@ -143,6 +143,9 @@ struct Case {
     plain: bool,
     /// xlsb: extra records between BrtWbProp and BrtBeginBundleShs
     pre: Vec<(u16, Vec<u8>)>,
+    /// input outside the specifications, on which the property is silent: only implementation vs model is compared.
+    /// 1 = xls DATEMODE record with the value 2; 2 = ods table style name defined twice (hidden first, visible last)
+    quirk: u8,
     sheets: Vec<LSheet>,
     names: Vec<LName>,
 }
@@ -176,7 +179,7 @@ impl Case {
             .collect();
         let pre: Vec<String> = self.pre.iter().map(|(i, p)| format!("{}:{}", i, hex(p))).collect();
         format!(
-            "{};{};{};{};{};P={};S={};N={}",
+            "{};{};{};{};{};P={};S={};N={};Q={}",
             self.fmt.tag(),
             self.seed,
             self.date1904 as u8,
@@ -184,12 +187,13 @@ impl Case {
             self.plain as u8,
             pre.join(","),
             sh.join(","),
-            nm.join(",")
+            nm.join(","),
+            self.quirk
         )
     }
     fn parse(s: &str) -> Case {
         let p: Vec<&str> = s.split(';').collect();
-        assert!(p.len() == 8, "bad case {s}");
+        assert!(p.len() == 8 || p.len() == 9, "bad case {s}");
         let utf = |h: &str| String::from_utf8(unhex(h)).expect("utf8");
         let list = |x: &str, pre: &str| -> Vec<String> {
             let b = x.strip_prefix(pre).expect("prefix");
@@ -235,6 +239,7 @@ impl Case {
             prefix: if p[3] == "-" { String::new() } else { p[3].to_string() },
             plain: p[4] == "1",
             pre,
+            quirk: if p.len() == 9 { p[8].strip_prefix("Q=").expect("Q=").parse().unwrap() } else { 0 },
             sheets,
             names,
         }
@@ -464,6 +469,11 @@ fn gen_case(fmt: Fmt, rng: &mut Rng) -> Case {
         prefix: if fmt == Fmt::Xlsx && rng.chance(1, 3) { "x".into() } else { String::new() },
         plain: false,
         pre,
+        quirk: match fmt {
+            Fmt::Xls if rng.chance(1, 25) => 1,
+            Fmt::Ods if rng.chance(1, 25) => 2,
+            _ => 0,
+        },
         sheets,
         names,
     }
@@ -495,6 +505,11 @@ fn build_xls(c: &Case) -> Built {
     let mut book = xlsw::XlsBook::new();
     book.date1904 = c.date1904;
     book.xfs = vec![0, 14];
+    if c.quirk == 1 {
+        // f1904DateSystem must be 0 or 1 (MS-XLS 2.4.77); 2 is outside the specification
+        book.date1904 = false;
+        book.globals_head.push((xlsw::DATEMODE, 2u16.to_le_bytes().to_vec()));
+    }
     if !c.plain && rng.chance(1, 4) {
         book.codepage = None;
     }
@@ -789,6 +804,12 @@ fn build_ods(c: &Case) -> Built {
             }
         }
     }
+    if c.quirk == 2 {
+        // style names are unique in a valid document; here every name is defined twice, the first time with the
+        // opposite visibility (the reader keeps the last definition)
+        let dup: Vec<(String, Option<bool>)> = styles.iter().map(|(n, d)| (n.clone(), Some(*d == Some(false)))).collect();
+        styles.splice(0..0, dup);
+    }
     for (n, d) in &styles {
         evs.push(ev_start("style:style", vec![kv("style:name", n), kv("style:family", "table")]));
         let mut a = vec![];
@@ -1066,7 +1087,8 @@ fn eval(c: &Case, drv: &mut Driver) -> Outcome {
             fails.push(("model_vs_spec".to_string(), format!("{}:encoder-tie", c.fmt.tag())));
         }
     }
-    if impl_out != expect {
+    let spec_silent = c.quirk != 0;
+    if !spec_silent && impl_out != expect {
         let part = diff_part(&impl_out, &expect);
         fails.push(("impl_vs_spec".to_string(), format!("{}:{}{}", c.fmt.tag(), part, features(c, &part))));
     }
@@ -1074,7 +1096,7 @@ fn eval(c: &Case, drv: &mut Driver) -> Outcome {
         let part = diff_part(&impl_out, &model_out);
         fails.push(("impl_vs_model".to_string(), format!("{}:{}{}", c.fmt.tag(), part, features(c, &part))));
     }
-    if impl_out == expect && model_out != expect {
+    if !spec_silent && impl_out == expect && model_out != expect {
         fails.push(("model_vs_spec".to_string(), format!("{}:{}", c.fmt.tag(), diff_part(&model_out, &expect))));
     }
     Outcome { impl_out, model_out, expect, fails }
@@ -1228,6 +1250,9 @@ fn run_case(c: &Case, drv: &mut Driver, rep: &mut Report, from_corpus: bool) {
     if from_corpus {
         rep.count("corpus");
     }
+    if c.quirk != 0 {
+        rep.count(&format!("{}:out-of-spec-quirk-{} (impl vs model only)", c.fmt.tag(), c.quirk));
+    }
     if !out.impl_out.starts_with("ok ") {
         rep.count(&format!("{}:impl:{}", c.fmt.tag(), out.impl_out.chars().take(40).collect::<String>()));
     }
@@ -1371,7 +1396,7 @@ fn unit_boundsheet(_drv: &mut Driver, rep: &mut Report, _rng: &mut Rng, _n: u64)
 
 fn corpus() -> Vec<Case> {
     let sh = |n: &str, vis: u8, kind: Kind| LSheet { name: n.to_string(), vis, kind };
-    let base = |fmt: Fmt| Case { fmt, seed: 1, date1904: false, prefix: String::new(), plain: true, pre: vec![], sheets: vec![sh("S1", 0, Kind::Work)], names: vec![] };
+    let base = |fmt: Fmt| Case { fmt, seed: 1, date1904: false, prefix: String::new(), plain: true, pre: vec![], quirk: 0, sheets: vec![sh("S1", 0, Kind::Work)], names: vec![] };
     let mut v = vec![];
     // D22: <x:workbookPr date1904="1"/> was ignored
     let mut c = base(Fmt::Xlsx);
@@ -1435,7 +1460,7 @@ fn main() {
          excluding the characters Excel forbids in sheet names and NUL, sometimes with a leading U+FEFF; every visibility x kind the format expresses; 0-10 defined names: text for \
          xlsx/ods, absolute PtgRef3d/PtgArea3d/PtgRefErr3d for xls/xlsb; both date systems, one date-styled cell per sheet) written under a random layout; non-trivial = at \
          least one sheet and (several sheets, a defined name, or a non-default visibility/kind); \
-         unit cases = BoundSheet8 payloads (all 65536 hsState x dt byte pairs, random and truncated strings)",
+         about 4% of the xls / ods cases carry an out-of-specification detail (DATEMODE = 2; a style name defined twice) on which only implementation and model are compared; unit cases = BoundSheet8 payloads (all 65536 hsState x dt byte pairs, random and truncated strings)",
     );
     rep.notes.push("xlsx/ods: quick-xml (text -> events) is trusted; the assurance there is chiefly the correspondence".into());
     if let Some(r) = &args.replay {
